@@ -2,6 +2,7 @@ package hx
 
 import (
 	"encoding/json"
+	"os"
 	"time"
 
 	"github.com/dunglas/mercure"
@@ -95,4 +96,18 @@ func BoltUpdates(path string) ([]StoredUpdate, error) {
 		})
 	})
 	return us, err
+}
+
+// BoltIDsOfCopy copies the (open, quiescent) history file and reads the ids of the copy directly with bbolt.
+func BoltIDsOfCopy(path string) ([]string, error) {
+	b, err := os.ReadFile(path)
+	if err != nil {
+		return nil, err
+	}
+	cp := path + ".copy"
+	if err := os.WriteFile(cp, b, 0o600); err != nil {
+		return nil, err
+	}
+	defer os.Remove(cp)
+	return BoltIDs(cp)
 }
